@@ -214,6 +214,13 @@ fn main() {
                 writeln!(f, "{}", json!({"e":"end","i":i,"ok":ok,"rules": if ok { obs["rules"].clone() } else { json!([]) }, "kind": obs["kind"]})).unwrap();
             }
         }
+        "literal" => {
+            // abstract value (stdin) -> Guard value literal
+            let mut txt = String::new();
+            std::io::Read::read_to_string(&mut std::io::stdin(), &mut txt).unwrap();
+            let v: J = serde_json::from_str(&txt).unwrap();
+            println!("{}", val::to_guard(&v, false));
+        }
         "yaml2json" => {
             // YAML (stdin) -> JSON (stdout) through serde_yaml; used by the CLI extractors
             let mut txt = String::new();
